@@ -16,6 +16,7 @@ import (
 	authtypes "github.com/cosmos/cosmos-sdk/x/auth/types"
 	banktypes "github.com/cosmos/cosmos-sdk/x/bank/types"
 	crisistypes "github.com/cosmos/cosmos-sdk/x/crisis/types"
+	govtypes "github.com/cosmos/cosmos-sdk/x/gov/types"
 	slashingtypes "github.com/cosmos/cosmos-sdk/x/slashing/types"
 	stakingtypes "github.com/cosmos/cosmos-sdk/x/staking/types"
 	abci "github.com/tendermint/tendermint/abci/types"
@@ -205,6 +206,13 @@ func buildGenesis(cfg *Config, accts []*Acct) app.GenesisState {
 		total = total.Add(bc)
 	}
 	gs[banktypes.ModuleName] = cdc.MustMarshalJSON(banktypes.NewGenesisState(banktypes.DefaultGenesisState().Params, balances, total, []banktypes.Metadata{}))
+
+	// governance: tiny deposit and a one-microsecond voting period, so a proposal voted in block b
+	// is executed by the end-blocker of the next block whose time has advanced
+	gg := govtypes.DefaultGenesisState()
+	gg.DepositParams.MinDeposit = sdk.NewCoins(sdk.NewInt64Coin(denom, 1))
+	gg.VotingParams.VotingPeriod = time.Microsecond
+	gs[govtypes.ModuleName] = cdc.MustMarshalJSON(gg)
 
 	cg := crisistypes.DefaultGenesisState()
 	cg.ConstantFee = sdk.NewInt64Coin(denom, 1000)
